@@ -25,3 +25,50 @@ claim("C07", "DESIGN.md section 7 (C07)",
       "plus direct oracles (completed only by the datagram from the exact address with the exact t; Stats().OutstandingTransactions agrees).",
       IDEAL + "The process-wide ID issuer is modelled as a counter whose start value is read off the first observed ID; uint64 wrap-around after 2^64 queries is out of scope.",
       "Lean 4 theorems + trace validation of real Query histories against the Lean dispatcher")
+
+SRV_TIE = ("Tied to the code on every run by trace validation at the ServerConfig.Conn boundary: a real dht.Server is driven through an in-memory PacketConn, "
+           "every datagram it writes and every change of its routing table (snapshot hook), peer store and BEP 44 store (recording wrappers) is recorded, "
+           "the history is replayed through the Lean server model by the compiled driver (nondeterministic choices - evicted entry, node selection within a bucket, token bytes - are taken from the observation and checked against the relational model), "
+           "and the property's direct oracle is evaluated on what the implementation did; regenerated source facts (go/ast) are side conditions of the theorems. ")
+SRV_NOTE = IDEAL + ("The BEP 44 store and the query hook are environment inputs of the server model (their answers are observed, not predicted). "
+            "Go-scheduler interleavings inside one critical section are not explored: the model's atomic steps are the code between Lock and Unlock of Server.mu. ")
+
+claim("C08", "DESIGN.md section 7 (C08)",
+      "Kernel-checked theorems over the executable model of serve/processPacket/handleQuery/reply/sendError: at most one datagram per inbound datagram, destination = source, t echoed, responses carry own ID and the requester's address, "
+      "unknown method -> 204, missing arguments -> 203, the six methods are always answered (valid token for the write methods), nothing for non-queries or garbage, target chosen by method. " + SRV_TIE,
+      SRV_NOTE, "Lean 4 theorems + trace validation of real server histories against the Lean server model")
+claim("C01", "DESIGN.md section 7 (C01)",
+      "Kernel-checked theorems over the server model in which every Go panic on the inbound path is an explicit failure outcome: from every well-formed state no datagram reaches one (never_crashes), the state stays well-formed (inv_step/inv_run), "
+      "the server is never closed or silenced by traffic (stays_open, still_serves), and processPacket's lock discipline is a regenerated source fact. " + SRV_TIE +
+      "The hostile part of the stream (damaged structured KRPC, mutated bytes, raw bytes, hostile replies to in-flight ping/bootstrap/announce/get/put with every subset of response fields) runs in a child process so that an unrecoverable panic is reported with the datagrams that caused it; liveness is judged by a probe ping and by Stats/NumNodes/Nodes/WriteStatus returning.",
+      SRV_NOTE + "Memory safety and panic-freedom of the third-party bencode decoder and of Go library code on arbitrary bytes is observed (child-process fuzz stream), not proved.",
+      "Lean 4 theorems + trace validation + child-process hostile stream with liveness oracle")
+claim("C05", "DESIGN.md section 7 (C05)",
+      "Kernel-checked inductive invariant of the routing-table model over every history of table events and every resolution of map-iteration order: every entry has a bucket index < 160 equal to its shared-prefix length with the root, no bucket exceeds K, no two entries share ID and address, root and zero ID never enter; "
+      "none of the table panics is reachable; node counts agree with the entries. " + SRV_TIE,
+      SRV_NOTE + "Elapsed time is simulated through the ageing hook; generated advances are whole minutes so the implementation's extra real milliseconds never cross the 15-minute boundary.",
+      "Lean 4 theorems (inductive invariant) + trace validation of real table histories")
+claim("C06", "DESIGN.md section 7 (C06)",
+      "Kernel-checked theorems over the routing-table model: every entry was introduced by a query or matched response from its own address carrying its ID and not flagged read-only, or by the add API (entry_provenance, update_sites as a regenerated source fact); "
+      "read-only senders, ID-less messages and failed pings never add; under enforcement every entry's ID is valid for its IP; a good entry is never removed; an entry is displaced only if bad or never-responded while the newcomer just answered; an eligible sender is admitted whenever its bucket has room. " + SRV_TIE,
+      SRV_NOTE, "Lean 4 theorems + trace validation of real table histories")
+claim("C09", "DESIGN.md section 7 (C09)",
+      "Kernel-checked theorems over the bucket-walk relation closestAllowed (the model of table.closestNodes under closestGoodNodeInfos): at most K distinct contacts, each a currently good table entry that has responded and is not the node itself and is of the requested family, "
+      "bucket priority (no contact from a farther bucket while an eligible one of a nearer visited bucket is omitted), short only if exhausted, walk starts at the target's bucket (159 for the own ID); target by method is proved on the handler model (C08.target_by_method). " + SRV_TIE,
+      SRV_NOTE, "Lean 4 theorems (relational spec) + trace validation of real replies against table snapshots")
+claim("C10", "DESIGN.md section 7 (C10)",
+      "Kernel-checked theorems: token-server level (honoured at every instant up to maxDelta whole intervals after issue, hence >= 10 min with the regenerated constants; rejected from maxDelta+1 intervals on, hence <= 15 min; bound to the 16-byte IP, independent of the port; other secret / altered token rejected, SHA-1 idealised as an injective parameter) and handler level "
+      "(invalid token => no datagram, no effect, nothing but the sender's table entry changes; valid token => effect and reply; the handler's test is the token server's). " + SRV_TIE +
+      "The token clock is set through the hook, so issue/use instants on both sides of every rotation boundary are exercised exactly.",
+      SRV_NOTE + "SHA-1 injectivity is a hypothesis of the theorems that need it. The driver learns token bytes from observed replies and checks their consistency.",
+      "Lean 4 theorems + trace validation with a controlled token clock")
+claim("C11", "DESIGN.md section 7 (C11)",
+      "Kernel-checked theorems over the server model with the peer store as a map keyed by (infohash, raw IP bytes): an accepted announce stores exactly (infohash, source IP, announced or implied port) and is answered; the entry persists until an announce from the same IP bytes for that infohash; "
+      "every stored entry stems from an accepted announce in the history; values are stored endpoints for that infohash, 6-byte only to requesters wanting IPv4 and 18-byte only to those wanting IPv6, and every get_peers reply with a store carries a token. " + SRV_TIE,
+      SRV_NOTE + "The asynchronous store update (go ps.AddPeer) is awaited by observing the recording wrapper. An announce without port and without implied_port is outside the property's quantifier and is not judged.",
+      "Lean 4 theorems + trace validation of announce/get_peers histories")
+claim("C19", "DESIGN.md section 7 (C19)",
+      "Kernel-checked theorems over the server model: a datagram from a blocked source leaves state and output untouched; nothing passes the write gate towards a blocked destination or after close; a passive node produces no output for any datagram and marks its queries read-only; "
+      "regenerated source facts: the only socket write of the module is in writeToNode after the closed and blocklist tests, serve tests the source before processPacket, the passive test precedes the method switch, makeQueryBytes sets ro under Passive. " + SRV_TIE +
+      "Outbound paths (ping, AddNode-triggered ping, questionable ping, announce and bootstrap traversals seeded with blocked and unblocked addresses) are exercised and every written datagram's destination and ro flag checked.",
+      SRV_NOTE, "Lean 4 theorems + regenerated structural facts + trace validation across configurations")
